@@ -701,10 +701,18 @@ impl<'c, 'a> FnCompiler<'c, 'a> {
         let head = self.here();
         self.loops.push(LoopCx { collector, break_patches: Vec::new() });
         self.block(statements);
+        // The MIR `While` is parallel by definition (loop variables are SSA phis): all loop values
+        // read the values of the finished iteration, then all loop variables are updated.
+        let mut staged: Vec<(u32, u32)> = Vec::new();
         for lv in loop_variables {
           let a = self.opnd(&lv.loop_value);
-          let dst = self.slot(lv.name);
-          self.code.push(Instr::Mov { dst, a });
+          let scratch = self.slot_names.len() as u32;
+          self.slot_names.push(lv.name);
+          self.code.push(Instr::Mov { dst: scratch, a });
+          staged.push((self.slot(lv.name), scratch));
+        }
+        for (dst, scratch) in staged {
+          self.code.push(Instr::Mov { dst, a: Opnd::Slot(scratch) });
         }
         self.code.push(Instr::LoopBack(head));
         let cx = self.loops.pop().unwrap();
